@@ -415,6 +415,17 @@ def parse_tex(s):
                     problems.append(("text", "tex-duplicate-text-macro", "\\text%s defined twice" % m.group(1)))
                 texts_[m.group(1)] = m.group(2)
         body = s[s.index("\\begin{tikzpicture}"):]
+        # a picture whose environments do not balance cannot be compiled at all
+        for env in ("scope", "tikzpicture", "document"):
+            nb, ne = s.count("\\begin{%s}" % env), s.count("\\end{%s}" % env)
+            if nb != ne:
+                problems.append(("structure", "tex-unbalanced-environment", "%d \\begin{%s} but %d \\end{%s}" % (nb, env, ne, env)))
+        depth = 0
+        for m_ in re.finditer(r"\\(begin|end)\{scope\}", body):
+            depth += 1 if m_.group(1) == "begin" else -1
+            if depth < 0:
+                problems.append(("structure", "tex-unbalanced-environment", "\\end{scope} without a matching \\begin{scope}"))
+                break
         sec = re.split(r"^% (shift for the margin|main layer|axis layer|axis|link layer|label layer|dots)$", body, flags=re.M)
         secs = {sec[i]: sec[i + 1] for i in range(1, len(sec), 2)}
         def shift_of(name):
@@ -500,7 +511,7 @@ def check_c07(spec, P, tl_obj, backend, today):
     data = spec["data"]
     n = len(data)
     for topic, bucket, msg in P.get("problems", []):
-        if topic in ("text", "axis"):
+        if topic in ("text", "axis", "structure"):
             raise Violation(bucket, msg)
     if not (len(P["dots"]) == len(P["links"]) == len(P["labels"]) == n):
         raise Violation("counts", "%d data but %d dots, %d links, %d boxes" % (n, len(P["dots"]), len(P["links"]), len(P["labels"])))
